@@ -922,4 +922,106 @@ Section Oracle.
     split; [lia|]. split; [lia|]. split; [lia|]. split; reflexivity.
   Qed.
 
+
+  (* ---- constructors ------------------------------------------------------------------------ *)
+  (* option vectors the theorems cover: DICT_SIZE_MIN <= dict_size <= 1 GiB (beyond about 1.5 GiB
+     buf_size no longer fits the i32 positions), 4 <= nice_len <= MATCH_LEN_MAX *)
+  Definition opts_ok (dict nice : Z) : Prop := 4096 <= dict <= 1073741824 /\ 4 <= nice <= 273.
+
+  Definition enc0 : encd := mkEncd (mkLzd (-1) (-1) false 0 0) (-1) 0 false 0.
+
+  Lemma enc_new_with_spec eb normal bt4 dict nice : opts_ok dict nice ->
+    mode_extra_before normal <= eb <= 65536 + 4096 ->
+    exists p, enc_new_with eb normal bt4 dict nice = Ok (p, enc0) /\ wf_p p /\
+      keep_before p = eb + dict /\ dict_size p = dict /\ mode_before p = mode_extra_before normal /\
+      extra_after p = mode_extra_after normal /\ match_len_max p = MATCH_LEN_MAX /\
+      keep_after p = mode_extra_after normal + MATCH_LEN_MAX /\ dict < buf_size p.
+  Proof.
+    intros [[Hd1 Hd2] [Hn1 Hn2]] Heb.
+    assert (Hmb : 1 <= mode_extra_before normal <= 4096) by (unfold mode_extra_before, mode_extra_after, NORMAL_EXTRA_BEFORE, FAST_EXTRA_BEFORE, NORMAL_EXTRA_AFTER, FAST_EXTRA_AFTER; destruct normal; lia).
+    assert (Hma : 272 <= mode_extra_after normal <= 4096) by (unfold mode_extra_before, mode_extra_after, NORMAL_EXTRA_BEFORE, FAST_EXTRA_BEFORE, NORMAL_EXTRA_AFTER, FAST_EXTRA_AFTER; destruct normal; lia).
+    assert (Hmm : mode_extra_after normal + 273 <= mode_extra_before normal + 4096) by (unfold mode_extra_before, mode_extra_after, NORMAL_EXTRA_BEFORE, FAST_EXTRA_BEFORE, NORMAL_EXTRA_AFTER, FAST_EXTRA_AFTER; destruct normal; lia).
+    unfold enc_new_with, lz_new, get_buf_size, MATCH_LEN_MAX.
+    set (reserve := Z.min (dict / 2 + 262144) 536870912).
+    assert (Hres : 64 <= reserve <= 536870912) by (unfold reserve; lia).
+    rewrite (ck_u32_ok (eb + dict)) by (unfold U32_MAX; lia). cbn [obind].
+    rewrite (ck_u32_ok (mode_extra_after normal + 273)) by (unfold U32_MAX; lia). cbn [obind].
+    rewrite ck_u32_ok by (unfold U32_MAX; lia). cbn [obind].
+    rewrite ck_u32_ok by (unfold U32_MAX; lia). cbn [obind].
+    destruct (Z.ltb_spec (eb + dict + (mode_extra_after normal + 273) + reserve) 2); [lia|].
+    destruct (Z.ltb_spec nice 1); [lia|]. cbn [fst snd].
+    eexists. split; [reflexivity|].
+    split.
+    { constructor; cbn [fst snd match_len_max req_flush extra_after keep_after mode_before dict_size keep_before buf_size];
+        unfold REQ_FINISH, I32_MAX; try lia. destruct bt4; lia. }
+    cbn [fst snd match_len_max req_flush extra_after keep_after mode_before dict_size keep_before buf_size].
+    repeat split; lia.
+  Qed.
+
+  Lemma enc0_einv p : wf_p p -> einv p 0 enc0 [] /\ phi p enc0 /\ quiet enc0.
+  Proof.
+    intros [W1 W2 W3 W4 W5 W6 W7 W8 W9 W10]. unfold REQ_FINISH in *.
+    split; [|split].
+    - constructor; unfold enc0, pidx, logical_pos, Kp; cbn; try lia; try (left; reflexivity).
+      constructor; cbn; lia.
+    - constructor; unfold enc0, steady, quiet, pidx; cbn; try lia; try reflexivity.
+    - unfold quiet, enc0, pidx; cbn. lia.
+  Qed.
+
+  (* set_preset_dict on a fresh encoder: the kept bytes are in the window, handed to the match
+     finder (the last ones may stay pending), none of them is coded *)
+  Lemma preset_spec p dict plen : wf_p p -> dict_size p = dict -> dict < buf_size p -> 0 <= plen ->
+    okor (set_preset_dict p dict plen (e_lz enc0) []) (fun r =>
+      let cs := Z.min plen dict in
+      let e1 := with_lz enc0 (fst r) in
+      einv p (- cs) e1 (snd r) /\ phi p e1 /\ quiet e1 /\ acct (snd r) = acct []).
+  Proof.
+    intros W Hd Hbuf Hpl. pose proof W as [W1 W2 W3 W4 W5 W6 W7 W8 W9 W10]. unfold REQ_FINISH in *.
+    unfold set_preset_dict, enc0. cbn [e_lz read_pos write_pos read_limit finishing pending_size Z.eqb andb negb].
+    set (cs := Z.min plen dict).
+    destruct (Z.ltb_spec (buf_size p) cs); [lia|].
+    rewrite as_i32_id by (unfold I32_MIN, I32_MAX in *; lia).
+    rewrite ck_i32_ok by (unfold I32_MIN, I32_MAX in *; lia). cbn [obind].
+    eapply okor_weaken.
+    { apply (mf_skip_spec p W); cbn [read_pos write_pos pending_size]; try lia. left; reflexivity. }
+    cbn [read_pos write_pos pending_size read_limit finishing].
+    intros [d1 tr1]. cbn [fst snd]. rewrite Z2Nat.id by lia. intros (A & B & C & D & E & K & Hbig & F).
+    injection F as E1 E2 E3 E4. cbn [sum_sym sum_fill sum_abs sum_chunk] in *.
+    assert (Hpb : pending_size d1 < req_flush p) by (destruct K as [K|K]; lia).
+    split; [|split; [|split]].
+    - constructor; unfold with_lz, pidx, logical_pos; cbn [e_lz read_ahead unc_size g_base rc_full]; try lia; try (left; reflexivity).
+      constructor; lia.
+    - constructor; unfold with_lz, steady, quiet, pidx; cbn [e_lz read_ahead]; try lia.
+      exact D.
+    - unfold quiet, with_lz, pidx; cbn [e_lz read_ahead]. lia.
+    - unfold acct. cbn [sum_sym sum_fill sum_abs sum_chunk]. rewrite E1, E2, E3, E4. reflexivity.
+  Qed.
+
+  Lemma l1_new_spec normal bt4 dict nice preset expected ps0 : opts_ok dict nice ->
+    (match preset with Some plen => 0 <= plen | None => True end) ->
+    okor (l1_new PS normal bt4 dict nice preset expected ps0) (fun s =>
+      exists p, wf_p p /\ l1ok s p (- (match preset with Some plen => Z.min plen dict | None => 0 end)) /\
+        sum_fill (l1_tr _ s) = 0 /\ l1_exp _ s = expected /\ l1_cur _ s = 0 /\
+        dict_size p = dict /\ keep_before p = dict + mode_extra_before normal).
+  Proof.
+    intros Ho Hpl. pose proof Ho as [[Hd1 Hd2] [Hn1 Hn2]]. unfold l1_new, enc_new, extra_before_sum.
+    assert (Hmb : 1 <= mode_extra_before normal <= 4096) by (unfold mode_extra_before, mode_extra_after, NORMAL_EXTRA_BEFORE, FAST_EXTRA_BEFORE, NORMAL_EXTRA_AFTER, FAST_EXTRA_AFTER; destruct normal; lia).
+    rewrite ck_u32_ok by (unfold U32_MAX; lia). cbn [obind].
+    destruct (enc_new_with_spec (0 + mode_extra_before normal) normal bt4 dict nice Ho) as (p & E & W & Kb & Ds & Mb & Ea & Ml & Ka & Hbuf); [lia|].
+    rewrite E. cbn [obind].
+    destruct preset as [plen|].
+    - eapply okor_bind; [apply (preset_spec p dict plen W Ds Hbuf Hpl)|].
+      intros [d1 tr1]. cbn [fst snd okor]. intros (I & F & Q & Acc). injection Acc as E1 E2 E3 E4.
+      cbn [sum_sym sum_fill sum_abs sum_chunk] in *.
+      exists p. split; [exact W|]. split.
+      { constructor; cbn [l1_p l1_e l1_tr l1_cur]; try reflexivity; try lia.
+        split; [exact I|]. split; [exact F|]. split; [exact Q|exact E3]. }
+      cbn [l1_tr l1_exp l1_cur]. repeat split; try assumption; try reflexivity; lia.
+    - cbn [okor]. destruct (enc0_einv p W) as (I & F & Q).
+      exists p. split; [exact W|]. split.
+      { constructor; cbn [l1_p l1_e l1_tr l1_cur sum_fill]; try reflexivity; try lia.
+        split; [exact I|]. split; [exact F|]. split; [exact Q|reflexivity]. }
+      cbn [l1_tr l1_exp l1_cur sum_fill]. repeat split; try assumption; try reflexivity; lia.
+  Qed.
+
 End Oracle.
